@@ -4,6 +4,7 @@ import (
 	"context"
 	"database/sql"
 	"fmt"
+	"sync"
 
 	"github.com/Factom-Asset-Tokens/factom"
 	_ "github.com/mattn/go-sqlite3"
@@ -27,6 +28,10 @@ type Pegnetd struct {
 	LastAveragesHeight uint32                    // Height of the current cache
 
 	lastAveragesDataHeights map[fat2.PTicker][]uint32 // Block height of every sample in LastAveragesData
+
+	// averagesMu guards the rolling-average cache above. The sync loop and the API
+	// handlers (rich lists) call GetPegNetRateAverages from different goroutines.
+	averagesMu sync.Mutex
 }
 
 func NewPegnetd(ctx context.Context, conf *viper.Viper) (*Pegnetd, error) {
